@@ -98,7 +98,7 @@ PROPS = {
                       "counts_complex": 4000, "counts_rational": 4000, "counts_polynomial": 4000, "evaluate_calls": 50000},
             "thorough": {"counts_real": 150000},
         },
-        "rule": "One evaluation = one unsmoothed_wmc call on a diagram compared for exact equality with the oracle: for weights with low+high = one (all 9 shipped semiring instances: real, finite field over U32_TINY / U32_SMALL / U64_LARGEST, Boolean, expected utility, complex, rational, polynomial) the sum over ALL models of the product of literal weights, computed from the truth table in exact arithmetic (dyadic rationals, overflow-free modular arithmetic, naturals, coefficient vectors mod x^32); for BDDs additionally arbitrary non-normalised weights against the unsmoothed count U (sum over the variables each sub-function depends on, S2). Both the diagram and its negation are counted. Diagrams: BDDs under random orders, SDDs under random vtrees (compression on/off), top-down decision-DNNFs of random CNFs; functions are parities, ite(x,g,!g) (both polarities of one node under one parent), thresholds and random functions on <= 7 variables. evaluate() is compared with the truth table on every assignment. Float-backed weights are dyadic and bounded so that every intermediate value is exactly representable (otherwise the case is skipped and counted). Non-trivial = function neither constant nor literal; distinct = distinct (diagram, weights, sub-check) triples.",
+        "rule": "One evaluation = one unsmoothed_wmc call on a diagram compared for exact equality with the oracle: for weights with low+high = one (all 9 shipped semiring instances: real, finite field over U32_TINY / U32_SMALL / U64_LARGEST, Boolean, expected utility, complex, rational, polynomial) the sum over ALL models of the product of literal weights, computed from the truth table in exact arithmetic (dyadic rationals, overflow-free modular arithmetic, naturals, coefficient vectors mod x^32); for BDDs additionally arbitrary non-normalised weights against the unsmoothed count U (sum over the variables each sub-function depends on, S2). Both the diagram and its negation are counted. Diagrams: BDDs under random orders and their smooth()ed versions (nodes with identical children; any weights, counted three times per semiring type), SDDs under random vtrees (compression on/off), top-down decision-DNNFs of random CNFs from either node store; functions are parities, ite(x,g,!g) (both polarities of one node under one parent), thresholds and random functions on <= 7 variables. evaluate() is compared with the truth table on every assignment. Float-backed weights are dyadic and bounded so that every intermediate value is exactly representable (otherwise the case is skipped and counted). Non-trivial = function neither constant nor literal; distinct = distinct (diagram, weights, sub-check) triples.",
         "assumptions": ASSUME_COMMON,
     },
     "C08": {
@@ -109,7 +109,7 @@ PROPS = {
                       "counts_finite_field": 4000, "model_counts": 4000, "exh3_orders": 6},
             "thorough": {"smooth_calls": 100000},
         },
-        "rule": "One evaluation = one smooth(f, k) call (f and its negation) checked four ways: the result's truth table (structural walk) equals f's; every root-to-terminal path tests var_at_level(0..k-1) exactly once and in order (structural path walk); unsmoothed_wmc under random NON-normalised small-integer weights in the real semiring and random residues in the 64-bit field equals the brute-force weighted sum over models computed from the truth table; under unit weights it equals the number of models. Regime exh3 enumerates all 256 functions of 3 variables under all 6 orders; rand draws functions on <= 8 variables (parity, ite(x,g,!g), threshold, random), forces them to skip levels at the top, in the middle and at the bottom, and also smooths over only the first k < n levels with f independent of the later ones (S9). Non-trivial = the function is not a constant/literal or it skips at least one level; distinct = distinct (function, order, k).",
+        "rule": "One evaluation = one smooth(f, k) call (f and its negation) checked four ways: the result's truth table (structural walk) equals f's; every root-to-terminal path tests var_at_level(0..k-1) exactly once and in order (structural path walk); unsmoothed_wmc under random NON-normalised small-integer weights in the real semiring and random residues in the 64-bit field equals the brute-force weighted sum over models computed from the truth table; under unit weights it equals the number of models. Regime exh3 enumerates all 256 functions of 3 variables under all 6 orders; rand draws functions on <= 8 variables (parity, ite(x,g,!g), threshold, random), forces them to skip levels at the top, in the middle and at the bottom, and also smooths over only the first k < n levels, mostly with f independent of the later ones (S9: then the counts are checked too), sometimes with f mentioning deeper levels (then only function preservation and the per-path invariant for the first k levels are asserted). Non-trivial = the function is not a constant/literal or it skips at least one level; distinct = distinct (function, order, k).",
         "exhaustive_note": "all Boolean functions of 3 variables x all 6 orders x {f, not f} are enumerated; larger inputs are sampled",
         "assumptions": ASSUME_COMMON + ["S9: smooth(f,k) is only called with f over the first k levels of the order"],
     },
@@ -144,7 +144,7 @@ PROPS = {
                       "literals": 50000, "hashes": 10000, "residual_repeats": 2000, "hasher_histories": 700, "edge_cases": 8},
             "thorough": {"cnfs": 40000},
         },
-        "rule": "One evaluation = one generated object checked against its set-theoretic definition: (cnf) Cnf::new keeps each clause as the given literal set and num_vars = max label + 1; eval on every assignment, condition(lit) for every literal (compared with the cofactor of the truth table), brute-force wmc in the real and 64-bit-field semirings against the exact sum over models (incl. the empty formula and formulas with empty clauses, regime edge), is_sat_partial for random partial models (implies 'every extension satisfies'; equivalence on CNFs without tautological clauses, S7); (models) PartialModel and VarSet driven through random set/unset/insert/remove histories against HashMap/HashSet models, all accessors, iterators, constructors and set operations compared after every step; (literals) label/polarity round trip for labels up to 2^63-1; (hasher) CnfHasher driven through random push/decide/pop histories, hash(m) for random models m extending the decisions that falsify no clause: a map residual-family -> hash and a map hash -> residual-family must both stay functional (the second only while the product of all occurrence primes is < 2^128, S5). Non-trivial = CNF neither constant nor literal (cnf regime) / every history (others); distinct = distinct inputs.",
+        "rule": "One evaluation = one generated object checked against its set-theoretic definition: (cnf) Cnf::new keeps each clause as the given literal set and num_vars = max label + 1; eval on every assignment, condition(lit) for every literal (compared with the cofactor of the truth table), brute-force wmc in the real and 64-bit-field semirings against the exact sum over models (incl. the empty formula and formulas with empty clauses, regime edge), is_sat_partial for random partial models (implies 'every extension satisfies'; equivalence on CNFs without tautological clauses, S7); (models) PartialModel and VarSet driven through random set/unset/insert/remove histories against HashMap/HashSet models, all accessors, iterators, constructors, set operations and difference() against an earlier snapshot (which may disagree on variables) compared after every step; (literals) label/polarity round trip for labels up to 2^63-1; (hasher) CnfHasher driven through random push/decide/pop histories, hash(m) for random models m extending the decisions that falsify no clause: a map residual-family -> hash and a map hash -> residual-family must both stay functional (the second only while the product of all occurrence primes is < 2^128, S5). Non-trivial = CNF neither constant nor literal (cnf regime) / every history (others); distinct = distinct inputs.",
         "assumptions": ASSUME_COMMON + ["S5: residuals are compared as families indexed by clause position", "S7: is_sat_partial is syntactic"],
     },
     "C10": {
@@ -155,7 +155,7 @@ PROPS = {
             "thorough": {"queries": 800000},
         },
         "sanitizers": ["miri_queries"],
-        "rule": "One evaluation = one pool of diagrams sharing nodes (built by a random operation history in one long-lived builder) on which 20-70 queries of different scratch types are interleaved: unsmoothed_wmc in 8 semiring instances, evaluate, count_nodes, semantic_hash over 3 primes, cached_semantic_hash (one prime per builder, S3), and for BDDs marginal_map, meu, bb::<Real>, bb::<ExpectedUtility>, user bdd_fold with usize and i64, Fold::mut_fold, smooth, condition, condition_model, exists; operands are chosen as f, !f, recent results and the previous operand again. Checks: (a) a repeated (diagram, query) returns the first answer (also asked twice in a row); (b) every 3rd query (every query in thorough) is asked once on a FRESH builder that replays the construction history and must give the identical answer (floats compared bit-exactly through their shortest round-trip print, diagrams through their isomorphism class); (c) after EVERY public call a scan over all nodes reachable from all pool roots asserts is_scratch_cleared(). BDD (both caches), compressed SDD and top-down decision-DNNF pools. Run in the `mon` profile so rsdd's own debug assertions on scratch state are live. Every pool is non-trivial; distinct = distinct (history, queries) inputs.",
+        "rule": "One evaluation = one pool of diagrams sharing nodes (built by a random operation history in one long-lived builder) on which 20-70 queries of different scratch types are interleaved: unsmoothed_wmc in 8 semiring instances, evaluate, count_nodes, semantic_hash over 3 primes, cached_semantic_hash (one prime per builder, S3), and for BDDs marginal_map, meu, bb::<Real>, bb::<ExpectedUtility>, user bdd_fold with usize and i64, Fold::mut_fold, smooth, condition, condition_model, exists; operands are chosen as f, !f, recent results and the previous operand again. Checks: (a) a repeated (diagram, query) returns the first answer (also asked twice in a row); (b) every 3rd query (every query in thorough) is asked once on a FRESH builder that replays the construction history and must give the identical answer (floats compared bit-exactly through their shortest round-trip print, diagrams through their isomorphism class); (c) after EVERY public call a scan over all nodes reachable from all pool roots asserts is_scratch_cleared(). BDD pools (both caches; they also contain smooth()ed members, and smooth is queried over a varying number of levels), compressed SDD pools, and top-down decision-DNNF pools built by compiling two CNFs in ONE builder of either node store (standard, semantic-hash 64-bit). Run in the `mon` profile so rsdd's own debug assertions on scratch state are live. Every pool is non-trivial; distinct = distinct (history, queries) inputs.",
         "assumptions": ASSUME_COMMON + ["S3: a builder's nodes are only ever cached-hashed with one prime and one weight map"],
     },
     "C11": {
@@ -168,7 +168,7 @@ PROPS = {
                       "untrimmed_nodes_denoting_literal_or_constant": 100},
             "thorough": {"hash_checks": 600000},
         },
-        "rule": "One evaluation = one hash or one semantic-builder operation. (hash) For a function f on <= 7 variables (parity, ite(x,g,!g), threshold, random, CNF-derived) and each prime in {U32_TINY, U32_SMALL, U64_LARGEST} the defining sum over the models of f of the product of create_semantic_hash_map weights is computed from the truth table with the harness's own modular arithmetic and compared with semantic_hash of BDDs under 3 random orders, SDDs under 2 random vtrees and top-down decision-DNNFs under 2 random orders (so all representations agree with each other); the negation must hash to 1 - h; cached_semantic_hash (asked twice, and through a second construction history) must equal it (one prime per builder, S3); the hash weights must sum to one. (semantic builders) SemanticSddBuilder<P> is driven through random and/or/negate/condition/exists histories and compile_cnf, SemanticDecisionNNFBuilder<P> through compile_cnf_topdown and condition: for every prime eq() must be true on every pair of pool members (both polarities, both argument orders) whose oracle truth tables are equal; over U64_LARGEST every returned diagram must have the right truth table, under 32-bit primes a wrong table is a hash collision and only recorded (S4). Non-trivial = function neither constant nor literal; distinct = distinct (function, representation, sub-check) / (function, op, vtree).",
+        "rule": "One evaluation = one hash or one semantic-builder operation. (hash) For a function f on <= 7 variables (parity, ite(x,g,!g), threshold, random, CNF-derived) and each prime in {U32_TINY, U32_SMALL, U64_LARGEST} the defining sum over the models of f of the product of create_semantic_hash_map weights is computed from the truth table with the harness's own modular arithmetic and compared with semantic_hash of BDDs under 3 random orders, SDDs under 2 random vtrees and top-down decision-DNNFs under 2 random orders (so all representations agree with each other); the negation must hash to 1 - h; cached_semantic_hash (asked twice, and through a second construction history) must equal it (one prime per builder, S3); hand-built BinarySDD / BddNode values made with the public constructors (also with complemented high edges, which no builder stores) must hash to the defining sum of the function they denote; the hash weights must sum to one. (semantic builders) SemanticSddBuilder<P> is driven through random and/or/negate/condition/exists histories (with templates that leave an untrimmed node denoting a literal and that reach one function along two routes) and compile_cnf, SemanticDecisionNNFBuilder<P> through compile_cnf_topdown and condition: for every prime eq() must be true on every pair of pool members (both polarities, both argument orders) whose oracle truth tables are equal; over U64_LARGEST every returned diagram must have the right truth table, under 32-bit primes a wrong table is a hash collision and only recorded (S4). Non-trivial = function neither constant nor literal; distinct = distinct (function, representation, sub-check) / (function, op, vtree).",
         "assumptions": ASSUME_COMMON + ["S3/S4: one prime and weight map per builder; collisions under 32-bit primes are recorded, not violations; ite/iff/xor/compose of SemanticSddBuilder are todo!() and excluded as in the property text"],
     },
     "C12": {
@@ -213,7 +213,7 @@ PROPS = {
             "quick": {"cli_wmc": 2100, "cli_formula_to_bdd": 1050, "cli_cnf_to_bdd": 1050, "cli_with_configured_order": 1200},
             "thorough": {"cli_wmc": 28000},
         },
-        "rule": "One evaluation = one invocation of a binary built from /repo with --features cli (cargo build into /verif/target/repo) on generated input files. weighted_model_count (single-count mode, no partials): random s-expression over <= 7 named variables (names chosen so that lexicographic order differs from first-occurrence and numeric order), a weights file with dyadic weights (normalised or arbitrary eighths in [0,1.5]) that sometimes omits a formula variable (documented default 0/0) and sometimes names extra variables, and in 60% of the cases a config with a random order over all variables; expected = number of models and exact weighted sum (fractions.Fraction) over formula + weight-file variables; the printed float is converted exactly and must equal the sum. bottomup_formula_to_bdd (linear or manual order) and bottomup_cnf_to_bdd (--order auto_minfill / auto_force): the emitted JSON is read by the independent Python node-table reader and must denote the input formula (lexicographic numbering) / CNF (0-based). A non-zero exit status on an in-domain input is a violation. Non-trivial = the formula is neither valid nor unsatisfiable; distinct = distinct inputs.",
+        "rule": "One evaluation = one invocation of a binary built from /repo with --features cli (cargo build into /verif/target/repo) on generated input files. weighted_model_count (single-count mode, no partials): random s-expression over <= 7 named variables (names chosen so that lexicographic order differs from first-occurrence and numeric order), a weights file with dyadic weights (normalised or arbitrary eighths in [0,1.5]) that sometimes omits a formula variable (documented default 0/0) and sometimes names extra variables, and in 60% of the cases a config with a random order over all variables; expected = number of models and exact weighted sum (fractions.Fraction) over formula + weight-file variables; the printed float is converted exactly and must equal the sum. bottomup_formula_to_bdd (linear or manual order) and bottomup_cnf_to_bdd (--order auto_minfill / auto_force; DIMACS written one clause per line, several clauses per line, or wrapped over lines with the terminating 0 alone on a line; with auto_minfill occasionally an empty clause): the emitted JSON is read by the independent Python node-table reader and must denote the input formula (lexicographic numbering) / CNF (0-based). A non-zero exit status on an in-domain input is a violation. The quick tier runs the dev-profile binaries; the thorough tier alternates with the release-profile binaries (as shipped: no overflow checks, lto, panic=abort). Non-trivial = the formula is neither valid nor unsatisfiable; distinct = distinct inputs.",
         "assumptions": ASSUME_COMMON + ["the configured order lists every variable (formula and weight-file) exactly once; CNFs have at least one clause and no empty clause (S9)"],
     },
     "C18": {
@@ -225,7 +225,7 @@ PROPS = {
             "thorough": {"c_calls": 150000},
         },
         "sanitizers": ["miri_ffi", "asan_ffi", "valgrind_ffi"],
-        "rule": "One evaluation = one call of an exported extern \"C\" symbol (linked from the crate built with the ffi feature and declared in the harness exactly as a C client would), mirrored by the corresponding native call on a native builder. Regime bdd_api: random call sequences on one manager (mk_bdd_manager_default_order or robdd_builder_all_table over var_order_new with a random order): bdd_var, bdd_new_var / bdd_new_label, bdd_and, bdd_or, bdd_ite (also as xor/iff), bdd_negate, bdd_compose, bdd_true/false; after every call the diagram is observed ONLY through bdd_is_true/false, bdd_topvar, bdd_low, bdd_high and must denote the oracle's truth table and have exactly the native diagram's expanded structure; at the end: bdd_eq over all pool pairs == native eq == function equality; bdd_is_const, bdd_count_nodes, bdd_to_json (== native serialiser string), print_bdd, scratch accessors; robdd_model_count == number of models over the manager's current variables; bdd_wmc / bdd_wmc_complex / bdd_wmc_poly (weights marshalled through wmc_param_*_set_weight, read back through *_var_weight, weight_*_lo/hi, polynomial_len, polynomial_get_coeffs) bit-identical to the native counts and exactly equal to the oracle's unsmoothed count. Regime frontends: literal_new, cnf_new, cnf_from_dimacs, cnf_min_fill_order, var_order_linear/new, robdd_builder_compile_cnf, dtree_from_cnf, vtree_from_dtree, sdd_builder_new/compile_cnf, sdd_wmc, ddnnf_builder_new/compile_cnf_topdown agree with their native counterparts and the CNF's truth table. Non-trivial = function neither constant nor literal; distinct = distinct (function, operation, order).",
+        "rule": "One evaluation = one call of an exported extern \"C\" symbol (linked from the crate built with the ffi feature and declared in the harness exactly as a C client would), mirrored by the corresponding native call on a native builder. Regime bdd_api: random call sequences on one manager (mk_bdd_manager_default_order or robdd_builder_all_table over var_order_new with a random order): bdd_var, bdd_new_var / bdd_new_label, bdd_and, bdd_or, bdd_ite (also as xor/iff), bdd_negate, bdd_compose, bdd_true/false; after every call the diagram is observed ONLY through bdd_is_true/false, bdd_topvar, bdd_low, bdd_high and must denote the oracle's truth table and have exactly the native diagram's expanded structure; at the end: bdd_eq over all pool pairs == native eq == function equality; bdd_is_const, bdd_count_nodes, bdd_to_json (== native serialiser string), print_bdd, scratch accessors; robdd_model_count == number of models over the manager's current variables; bdd_wmc / bdd_wmc_complex / bdd_wmc_poly (weights marshalled through wmc_param_*_set_weight, read back through *_var_weight, weight_*_lo/hi, polynomial_len, polynomial_get_coeffs) bit-identical to the native counts and exactly equal to the oracle's unsmoothed count. Regime frontends: literal_new, cnf_new (also on clause lists containing empty clauses), cnf_from_dimacs, cnf_min_fill_order, var_order_linear/new, robdd_builder_compile_cnf, dtree_from_cnf, vtree_from_dtree, sdd_builder_new/compile_cnf, sdd_wmc, ddnnf_builder_new/compile_cnf_topdown agree with their native counterparts and the CNF's truth table. Non-trivial = function neither constant nor literal; distinct = distinct (function, operation, order).",
         "assumptions": ASSUME_COMMON + ["the harness's extern declarations mirror the C prototypes (repr(C) structs re-declared with the same layout)", "the API has no free function for diagram handles: leak checking is off for this workload (S15)"],
     },
 }
